@@ -167,6 +167,10 @@ class Categorize(Factory, Container):
     @inheritdoc(Container)
     def __add__(self, other):
         if isinstance(other, Categorize):
+            if self.contentType != other.contentType:
+                raise ContainerException(
+                    f"cannot add Categorizes because bin type differs ({self.contentType} vs {other.contentType})"
+                )
             out = Categorize(self.quantity, self.value)
             out.entries = self.entries + other.entries
             out.bins = {}
@@ -184,6 +188,10 @@ class Categorize(Factory, Container):
     @inheritdoc(Container)
     def __iadd__(self, other):
         if isinstance(other, Categorize):
+            if self.contentType != other.contentType:
+                raise ContainerException(
+                    f"cannot add Categorizes because bin type differs ({self.contentType} vs {other.contentType})"
+                )
             self.entries += other.entries
             for k in self.keySet.union(other.keySet):
                 if k in self.bins and k in other.bins:
